@@ -70,7 +70,7 @@ FAMILIES = {
         "wide":    ("ParamsWide", "WideMoves", 4, "BothTr", "PageOnly", "FirstWide", []),
         "vcolumns": ("ParamsVCol", "VColMovesT", 4, "BothTr", "PageOnly", "FirstVCol", []),
         "nested":  ("ParamsNestT", "NestMovesT", 5, "BothTr", "PageOnly", "FirstNest", []),
-        "degenerate": ("ParamsDegen", "DegenMoves", 4, "BothTr", "PageOnly", "FirstDegen", []),
+        "degenerate": ("ParamsDegenT", "DegenMoves", 4, "BothTr", "PageOnly", "FirstDegen", []),
     },
 }
 SIM = {"quick": (400, 9), "thorough": (6000, 9)}     # -simulate: behaviours, glyphs
